@@ -10,3 +10,5 @@ import LettreVerif.Props.C13
 #print axioms LV.C13.sign_adds_one_field
 #print axioms LV.C13.h_lists_signed_fields
 #print axioms LV.C13.body_alteration_changes_input
+#print axioms LV.C13.simple_sig_field_witness
+#print axioms LV.C13.simple_sig_field_short_agrees
